@@ -745,12 +745,14 @@ package vegeta
 //@   ghost received int
 //@   at call Shuffle: ghost shuffled = true
 //@   before call firstOfEachIPFamily: assert [random-pick-before-selection] shuffled ; assert [works-on-its-own-copy] fresh(arg0)
-//@   at go DNSCaching$1$2$2: ghost spawned = spawned + 1
+//@   cbinvariant [shuffling-keeps-every-element-a-resolved-address] forall k int :: 0 <= k && k < len(ips) ==> resolvedfor(host, ips[k])
+//@   at go DNSCaching$1$2$2: assert [every-dial-goes-to-an-address-resolved-for-the-host] resolvedfor(host, arg0) ; ghost spawned = spawned + 1
 //@   at recv ch: ghost received = received + 1
 //@   ensures [one-receive-per-dial] hostport_ok(addr) && received > 0 ==> received == spawned
 //@   ensures [lock-released] !held(&rngMu)
 //@   loop 1
 //@     invariant -1 <= rangeindex && rangeindex < len(ips) && spawned == rangeindex + 1 && received == 0 && !held(&rngMu) && cap(ch) == len(ips) && ch != nil
+//@     invariant forall k int :: 0 <= k && k < len(ips) ==> resolvedfor(host, ips[k])
 //@     decreases len(ips) - rangeindex
 //@   loop 2
 //@     invariant 0 <= i && i <= cap(ch) && received == i && spawned == cap(ch) && !held(&rngMu)
